@@ -227,7 +227,7 @@ class World:
             self.points_cache[key] = trees.sample_points(rng, list(names), 8)
         return self.points_cache[key]
 
-    def _equiv(self, a, b):
+    def _equiv(self, a, b, exact=False):
         names = sorted(set(trees.variables_of(a)) | set(trees.variables_of(b)))
         pts = self._points(names)
         if trees.is_equation(a) != trees.is_equation(b):
@@ -236,8 +236,10 @@ class World:
             c.witness = "one is an equation, the other is not"
             return c
         if trees.is_equation(a):
+            if exact:
+                return trees.compare_eqn_exact(a, b, pts, self.planted)
             return trees.compare_eqn(a, b, pts, self.planted, None)
-        return trees.compare_expr(a, b, pts)
+        return trees.compare_expr(a, b, pts, exact=exact)
 
     # ------------------------------------------------------------------
     def check_isolation(self, rule_name):
@@ -436,7 +438,9 @@ class World:
                             f"{trees.show(root)} ({how}) prints as {text!r}; the parser rejects it "
                             f"({type(e).__name__})")]
         out = []
-        c = self._equiv(root, back)
+        # printing and re-parsing licenses no rounding: integer text is exact and float
+        # text is the shortest form that reads back to the same double
+        c = self._equiv(root, back, exact=True)
         st["c04." + c.verdict] += 1
         if c.verdict == "diff":
             out.append(Finding("C04", {"clause": "reparse", "kind": "differs", "site": self._reparse_site(root)},
@@ -535,6 +539,38 @@ def rw_expr(rng, d, vs, int_only=False):
     return f"({a})({b})"
 
 
+def kind_tree_text(rng, d, vs):
+    """Fully parenthesised text of a random tree in which every node kind is
+    equally likely at every position, so that every parent-kind x child-kind x
+    side combination the parser can produce is reached as a start state."""
+    if d <= 0 or rng.random() < 0.15:
+        r = rng.random()
+        if r < 0.35:
+            return rng.choice(vs)
+        if r < 0.6:
+            return rw_number(rng)
+        if r < 0.75:
+            return "-" + rw_number(rng)
+        if r < 0.85:
+            return rw_number(rng) + rng.choice(vs)
+        if r < 0.93:
+            return str(rng.randint(0, 5)) + "!"
+        return rw_number(rng) + rng.choice(vs) + "^" + str(rng.randint(0, 3))
+    k = rng.choice(["add", "sub", "mul", "div", "pow", "neg", "neg", "sgn", "pow"])
+    a = kind_tree_text(rng, d - 1, vs)
+    if k == "neg":
+        return f"-({a})"
+    if k == "sgn":
+        return f"sgn({a})"
+    b = kind_tree_text(rng, d - 1, vs)
+    op = {"add": "+", "sub": "-", "mul": "*", "div": "/"}.get(k)
+    if k == "pow":
+        if rng.random() < 0.5:
+            b = rng.choice([str(rng.randint(0, 3)), "-" + str(rng.randint(1, 2)), b])
+        return f"({a})^({b})"
+    return f"({a}) {op} ({b})"
+
+
 def planted_equation(rng, vs):
     """L = R with a solution planted by construction (exact arithmetic)."""
     from mathy_core.parser import ExpressionParser
@@ -597,7 +633,12 @@ class RewriteSim:
         cfg = {"prop": prop, "stratum": stratum, "eq_seed": rng.randrange(2 ** 32)}
         src = rng.random()
         planted = []
-        if prop == "C04" and src < 0.45:
+        if prop == "C04" and src < 0.3:
+            text = kind_tree_text(rng, rng.choice([1, 2, 2, 3]), rng.choice(["xyz", "ab", "x"]))
+            if rng.random() < 0.2:
+                text = text + " = " + kind_tree_text(rng, rng.choice([0, 1, 2]), "xyz")
+            cfg["source"] = "kind-pairs"
+        elif prop == "C04" and src < 0.55:
             # trees "obtainable as parse(s) for any string s": the broad documented grammar
             g = {"depth": rng.choice([1, 2, 3, 4]), "floats": True, "fact": rng.random() < 0.6,
                  "sgn": rng.random() < 0.5, "brackets": rng.random() < 0.3, "endash": rng.random() < 0.2,
